@@ -176,14 +176,16 @@ CLAIMED["C15"] = dict(
 
 CLAIMED["C14"] = dict(
     category="translation_validation", design="DESIGN.md §4 C14",
-    technique="re-contraction / linearisation built by the harness with the documented normalisation and validated against the input by the proved Lean checker checkEquiv; block symmetry validated per group element; group order by the Lean canonicaliser",
+    technique="re-contraction built by the harness with the documented normalisation, linearisation by the Lean model linearise (theorem linearise_first_order: it is the first-order change), both validated against the code's result by the proved Lean checker checkEquiv; block symmetry validated per group element; group order by the Lean canonicaliser",
     text="remove_tensor: the returned blocks are re-contracted with the canonical block tensor and c_B = [2 if bra-ket symmetric]/|G_B| "
          "(ADC amplitudes: sqrt convention), |G_B| computed by brute force with the Lean canonicaliser; the result must be accepted by "
          "checkEquiv as equal to the input, and every block expression must be mapped onto +-itself by every element of G_B. derivative: "
-         "the blocks contracted with a variation tensor of the same symmetry must be accepted as equal to the product-rule linearisation "
-         "of the input. By checkEquiv_sound each accepted check holds for all tensor values, orbital models and target assignments. "
+         "the blocks contracted with a variation tensor of the same symmetry must be accepted as equal to the linearisation of the input "
+         "built by the Lean model linearise; linearise_first_order proves that this IS the first-order change: for every strength s of "
+         "the variation, value(A + s D) = value(A) + s G(s) with an explicit polynomial G and G(0) = value of the linearisation (any "
+         "field, any tensor/orbital model, the tensor not inside orbital-energy brackets). By checkEquiv_sound each accepted check holds for all tensor values, orbital models and target assignments. "
          "Two genuine defects repaired. Inputs are sampled; restrictions listed in level_note.",
-    note=TB + "Trusted glue: the construction of the re-contraction/linearisation (harness/props/c14.py). Not judged: remove_tensor on terms "
+    note=TB + "Trusted glue: the construction of the re-contraction for remove_tensor (harness/props/c14.py); the linearisation is the Lean model's. Not judged: remove_tensor on terms "
          "containing the tensor more than once, the derivative when the tensor carries target or repeated indices, Einstein-convention inputs "
          "whose tensor indices occur more than twice (documented limitation of the convention), cases slower than the per-case time limit.")
 
